@@ -5,7 +5,7 @@ Schedule: {'spec': {...parser spec incl. 'reads' ground truth...}, 'ops': [poke 
 """
 import numpy as np
 
-from .. import import_fsic, probes, ref_solver, scripts, spans
+from .. import REPO, import_fsic, probes, ref_solver, scripts, spans
 from . import solver as S
 
 
@@ -49,16 +49,17 @@ def generate(rng, idx, tier, variant):
         if rng.random() < 0.3:
             nm = rng.choice(prog['names'])
             ops.append({'op': 'poke', 'name': nm, 'pos': rng.randrange(n), 'v': rng.choice([0.0, -1.0, 1e308, 'nan', 'inf', 750.0])})
+        intr = {'line': rng.randint(1, 40 + 60 * rng.choice([1, 1, 2, 4]))} if rng.random() < 0.1 else None
         r = rng.random()
         if r < 0.6:
             # any position, feasible or not; the run index walks the positions so that each is hit in turn
             tn = (idx + len(ops)) % n if rng.random() < 0.5 else rng.randrange(n)
             t = tn - n if rng.random() < 0.4 else tn
-            ops.append({'op': 'solve_period' if rng.random() < 0.3 else 'solve_t', 't': t, 'form': rng.choice([0, 1]), 'opts': opts})
+            ops.append({'op': 'solve_period' if rng.random() < 0.3 else 'solve_t', 't': t, 'form': rng.choice([0, 1]), 'opts': opts, 'interrupt': intr})
         else:
             a = rng.choice([None, None] + list(range(n)))
             b = rng.choice([None, None] + list(range(n)))
-            ops.append({'op': 'solve', 'start': a, 'end': b, 'opts': opts})
+            ops.append({'op': 'solve', 'start': a, 'end': b, 'opts': opts, 'interrupt': intr})
     return {'spec': spec, 'ops': ops}
 
 
@@ -166,22 +167,38 @@ def execute(schedule, ctx):
         sink = []
         ctl.sink = sink
         undo = probes.install_recorders(m, names, sink)
+        def the_call():
+            if op['op'] == 'solve_t':
+                return m.solve_t(op['t'], **S.solver_kwargs(opts))
+            if op['op'] == 'solve_period':
+                return m.solve_period(spans.label_forms(sp_now, span, _norm(op['t'], n), op.get('form', 0)), **S.solver_kwargs(opts))
+            a = None if op['start'] is None else span[op['start']]
+            b = None if op['end'] is None else span[op['end']]
+            return m.solve(start=a, end=b, **S.solver_kwargs(opts))
+
+        intr = op.get('interrupt')
+        lb = probes.LineBudget([REPO + '/fsic'], limit=intr['line'], mode='interrupt') if intr else None
         try:
             try:
-                if op['op'] == 'solve_t':
-                    v = m.solve_t(op['t'], **S.solver_kwargs(opts))
-                elif op['op'] == 'solve_period':
-                    v = m.solve_period(spans.label_forms(sp_now, span, _norm(op['t'], n), op.get('form', 0)), **S.solver_kwargs(opts))
-                else:
-                    a = None if op['start'] is None else span[op['start']]
-                    b = None if op['end'] is None else span[op['end']]
-                    v = m.solve(start=a, end=b, **S.solver_kwargs(opts))
+                v = lb.run(the_call) if lb else the_call()
                 out = {'kind': 'return', 'value': v}
+            except probes.SimInterrupt as e:
+                # an asynchronous interruption (Ctrl-C, MemoryError) at an arbitrary line of the library: whatever was
+                # under way, the frame conditions below still hold for what is left behind
+                out = {'kind': 'raise', 'exc': e, 'interrupted': True}
             except Exception as e:
                 out = {'kind': 'raise', 'exc': e}
         finally:
             undo()
             ctl.sink = None
+        interrupted = bool(out.get('interrupted'))
+        if interrupted:
+            from .. import kernel as _k
+
+            _k.pin_globals(getattr(ctx, 'np_err', 'default'))  # (a `with catch_warnings` block may have been cut short)
+            ctx.fault('interrupt-line')
+            if lb.where:
+                ctx.probe(f'interrupt-at:{lb.where[0]}:{lb.where[1]}')
         post = ref_solver.snapshot(m)
         cls_out = 'return' if out['kind'] == 'return' else type(out['exc']).__name__
         S.count_faults(ctx, ctl.log, opts)
@@ -235,7 +252,7 @@ def execute(schedule, ctx):
             if any(not np.isfinite(start[nm][tn]) for nm in m.__dict__['check']):
                 rejected = True
                 ctx.probe('rejected:preexisting-nonfinite' + ('+offset' if opts['offset'] else ''))
-                chk('reject/preexisting-raises', cls_out == 'SolutionError', {'got': cls_out})
+                chk('reject/preexisting-raises', cls_out == 'SolutionError' or interrupted, {'got': cls_out})
                 allowed = {(nm, tn) for nm in endo} if opts['offset'] else set()
                 bad = [c for c in changed if c not in allowed]
                 chk('reject/nothing-changes', not bad, {'changed': bad[:8], 'why': 'pre-existing non-finite'})
